@@ -146,6 +146,10 @@ def install(ctx, repo, probes):
         tz = t._time_zone
         p_off = R.tp_offset_minutes(p)
         off = p_off if tz._unknown else tz._hours * 60 + tz._minutes
+        if ctx.t_zone is not None:
+            # the workload knows which zone t was given ("" = none): the
+            # oracle must not depend on the library's own unknown flag
+            off = p_off if ctx.t_zone == "" else ctx.t_zone
         inst0 = int(R.tp_instant(MODE, p))
         local0 = inst0 + off * 60
         want_local = next_match(spec, local0)
@@ -211,6 +215,7 @@ def install(ctx, repo, probes):
         else:
             ctx.nontrivial((snap["tkey"], snap["pkey"]))
     probes.wrap(TP, "__add__", post, pre)
+    ctx.t_zone = None
     ctx.budget = core.Budget(repo.path)
     ctx.tparser = repo.parsers.TimePointParser(
         allow_truncated=True, default_to_unknown_time_zone=True)
@@ -235,8 +240,27 @@ def run_case(ctx, repo, case):
     p = repo.tp(case["p"])
     spec = t_spec(t)
     tz = t._time_zone
-    off = R.tp_offset_minutes(p) if tz._unknown else \
-        tz._hours * 60 + tz._minutes
+    given = case.get("t_zone")          # [h, m] or None
+    if "t_zone" in case:
+        if bool(tz._unknown) != (given is None) or (
+                given is not None and
+                [tz._hours, tz._minutes] != list(given)):
+            ctx.violation("t.zone", "truncated point built with zone %r has "
+                          "zone (%r, %r, unknown=%r)" % (
+                              given, tz._hours, tz._minutes, tz._unknown),
+                          t=R.tp_key(t))
+        ctx.t_zone = "" if given is None else given[0] * 60 + given[1]
+        off = R.tp_offset_minutes(p) if given is None else ctx.t_zone
+    else:
+        off = R.tp_offset_minutes(p) if tz._unknown else \
+            tz._hours * 60 + tz._minutes
+    try:
+        _run_add(ctx, repo, case, t, p, spec, off)
+    finally:
+        ctx.t_zone = None
+
+
+def _run_add(ctx, repo, case, t, p, spec, off):
     inst0 = int(R.tp_instant(MODE, p))
     want = next_match(spec, inst0 + off * 60) if in_scope(spec) else None
     days = 0 if want is None else (want - (inst0 + off * 60)) // 86400
@@ -324,11 +348,50 @@ def rand_trunc(rng):
                 from .. import isotext
                 text += isotext.enc_zone(zone, "hhmm", False)
         out = {"t_text": text}
+    out["t_zone"] = list(zone) if zone is not None else None
     return out, kw
+
+
+def structured_cases(ctx):
+    """every day of a leap and a common year (and the years a rare
+    designator needs) against the critical designator values"""
+    stride = 3 if ctx.tier == "quick" else 1
+    k = 0
+    for y in (2019, 2020, 2100):
+        y0 = R.days_before_year(MODE, y)
+        for doy in range(R.year_len(MODE, y)):
+            for kw in ({"day_of_month": 29}, {"day_of_month": 31},
+                       {"day_of_month": 30, "hour_of_day": 6},
+                       {"day_of_year": 366}, {"day_of_year": 60},
+                       {"week_of_year": 53, "day_of_week": 4},
+                       {"week_of_year": 1, "day_of_week": 1,
+                        "hour_of_day": 0},
+                       {"day_of_week": 7, "hour_of_day": 23,
+                        "minute_of_hour": 59}):
+                k += 1
+                if (k + ctx.seed) % stride or not ctx.mine(k // stride):
+                    continue
+                t = dict(kw, truncated=True)
+                inst = (y0 + doy) * 86400 + (k * 7919) % 86400
+                rep = gen.REPS[k % 3]
+                off = gen.OFFSET_POOL[k % 6]
+                local = inst + (off[0] * 60 + off[1]) * 60
+                rd, sod = divmod(local, 86400)
+                pkw = gen.date_kwargs(MODE, rep, rd)
+                pkw.update({"hour_of_day": sod // 3600,
+                            "minute_of_hour": sod % 3600 // 60,
+                            "second_of_minute": sod % 60})
+                pkw.update(gen.zone_kwargs(off))
+                yield {"op": "add", "order": "t+p" if k % 2 else "p+t",
+                       "t": t, "p": pkw, "t_zone": None}
 
 
 def workload(ctx, repo):
     rng = ctx.rng
+    for case in structured_cases(ctx):
+        ctx.case = case
+        ctx.ev("cases.structured")
+        run_case(ctx, repo, case)
     n = 3200 if ctx.tier == "quick" else 12000
     for k in range(n):
         tdesc, kw = rand_trunc(rng)
